@@ -134,3 +134,7 @@ Proof.
   subst l'. split; [exact H2|].
   pose proof (proj1 (Forall_forall _ _) (uf_ok _ _ _ _ F) r Hr) as Hnok. exact (proj1 (ul_wf_file _ n l i Hnok Hin)).
 Qed.
+
+Print Assumptions ul_facts_of_wf.
+Print Assumptions ul_view_keys.
+Print Assumptions ul_facts_files.
